@@ -260,6 +260,64 @@ func c14CallInLoop(r *rand.Rand) Case {
 	return c
 }
 
+// the first definition is kept: a rejected second define must not replace it — observed by calling
+// the name in a LATER run on the same executor (the failing run itself stops at the define error)
+func c14DefineTwiceThenCall(r *rand.Rand) Case {
+	data := map[string]any{"flag": "yes"}
+	first := leafAct("first", pOp{Kind: "trace", ID: "first-body"}, pOp{Kind: "log", Tmpl: []tpart{{Lit: "first runs"}}})
+	second := leafAct("second", pOp{Kind: "trace", ID: "second-body"})
+	run1 := &pAct{Name: "r1", Children: []*pAct{
+		{Name: "s0", Order: 0, Ops: []pOp{{Kind: "define", Name: "fn", Body: first}}},
+		{Name: "s1", Order: 1, Ops: []pOp{{Kind: "define", Name: "fn", Body: second}}},
+		{Name: "s2", Order: 2, Ops: []pOp{{Kind: "log", Tmpl: []tpart{{Lit: "not reached"}}}}},
+	}}
+	if r.Intn(3) == 0 { // no duplicate: plain define, then a later call
+		run1.Children = run1.Children[:1]
+	}
+	run2 := &pAct{Name: "r2", Ops: []pOp{{Kind: "call", Name: "fn", Args: litArgs(map[string]string{"x": "1"})}}}
+	if r.Intn(4) == 0 {
+		run2 = &pAct{Name: "r2", Ops: []pOp{{Kind: "call", Name: "other", Args: litArgs(map[string]string{"x": "1"})}}}
+	}
+	c := execCase2("define-then-call-later", run1, run2, data, true)
+	if d, ok := c.Desc.(map[string]any); ok {
+		if evs, ok := d["events"].([]string); ok {
+			for _, e := range evs {
+				if e == "T:second-body" {
+					c.Fail = append(c.Fail, "the rejected second definition was run by a later call")
+				}
+			}
+		}
+	}
+	return c
+}
+
+// forEach inside a forEach body, each with its own variable name (the inner one is cloned per outer item)
+func c14Nested(r *rand.Rand) Case {
+	data := map[string]any{"flag": "yes"}
+	ov := []string{"o", "forEach", "outer"}[r.Intn(3)]
+	iv := []string{"i", "forEach", "inner"}[r.Intn(3)]
+	mk := func(v string, items []string, body *pAct) pOp {
+		op := pOp{Kind: "foreach", Var: v, Items: items, Body: body}
+		if v == "forEach" {
+			op.Var = ""
+		}
+		return op
+	}
+	// observed through a template operation: its payload is rendered when it runs (a log message
+	// would have been rendered already when the OUTER body was cloned, before the inner variable exists)
+	data["trace"] = ""
+	innerBody := leafAct("ib", pOp{Kind: "template", Path: "trace", Tmpl: []tpart{{Var: "trace"}, {Lit: "["}, {Var: ov}, {Lit: "/"}, {Var: iv}, {Lit: "]"}}})
+	outerBody := &pAct{Name: "ob", Children: []*pAct{
+		{Name: "c1", Order: 1, Ops: []pOp{mk(iv, []string{"x", "y"}[:1+r.Intn(2)], innerBody)}},
+		{Name: "c2", Order: 2, Ops: []pOp{{Kind: "log", Tmpl: []tpart{{Lit: "after-inner="}, {Var: ov}}}}},
+	}}
+	if r.Intn(2) == 0 { // the inner forEach directly among the outer body's operations
+		outerBody = &pAct{Name: "ob", Ops: []pOp{mk(iv, []string{"x", "y"}, innerBody), {Kind: "log", Tmpl: []tpart{{Lit: "after-inner="}, {Var: ov}}}}}
+	}
+	root := &pAct{Name: "r", Ops: []pOp{mk(ov, []string{"a", "b", "c"}[:1+r.Intn(3)], outerBody)}}
+	return execCase("foreach-nested", root, data, true)
+}
+
 // counter loops: init, (test, body, post)^n, test
 func c14Loop(r *rand.Rand) Case {
 	n := r.Intn(6)
@@ -332,7 +390,7 @@ func c14Loop(r *rand.Rand) Case {
 func init() {
 	register(&Prop{
 		ID:   "C14",
-		Rule: "kinds: foreach (literal items / list query / leaf query / unresolved query; variable name default or custom; body = log of the variable + optional trace/set + failure at one chosen item through a guarded child step or always; body's own when ignored), foreach-container (each key exactly once, any order; Go side only), call (define then call with single-key, default and dotted argsPath incl. paths next to existing data; undefined callee; same name defined twice; failing callee; second call; literal and templated arguments incl. a nested map, read back inside the callee), call-in-loop (a call in a forEach body, once or twice per item with the data changed in between: top-level and nested arguments must be rendered anew every time), literal items incl. the empty string, loop (counter loops with bounds 0-5 whose body and post-action log the counter, post increments it; body failing at i=0; loops whose test is false at once). Observables: full event sequence, error, final data vs the Coq interpreter; Go side: variable / arguments absent afterwards, unrelated data undisturbed, items x body in order up to the failure, init,(test,body,post)^n,test. Non-trivial: failure at an inner item / dotted argsPath / >= 2 iterations. Distinct by Gallina term.",
+		Rule: "kinds: foreach (literal items / list query / leaf query / unresolved query; variable name default or custom; body = log of the variable + optional trace/set + failure at one chosen item through a guarded child step or always; body's own when ignored), foreach-container (each key exactly once, any order; Go side only), call (define then call with single-key, default and dotted argsPath incl. paths next to existing data; undefined callee; same name defined twice; failing callee; second call; literal and templated arguments incl. a nested map, read back inside the callee), call-in-loop (a call in a forEach body, once or twice per item with the data changed in between: top-level and nested arguments must be rendered anew every time), literal items incl. the empty string, foreach-nested (a forEach in a forEach body, default and custom variable names on either level), define-then-call-later (two runs on one executor: a rejected second define must not replace the first), loop (counter loops with bounds 0-5 whose body and post-action log the counter, post increments it; body failing at i=0; loops whose test is false at once). Observables: full event sequence, error, final data vs the Coq interpreter; Go side: variable / arguments absent afterwards, unrelated data undisturbed, items x body in order up to the failure, init,(test,body,post)^n,test. Non-trivial: failure at an inner item / dotted argsPath / >= 2 iterations. Distinct by Gallina term.",
 		Gen: func(r *rand.Rand, tier string, idx int) Case {
 			switch idx % 8 {
 			case 0, 1, 2:
@@ -342,6 +400,12 @@ func init() {
 			case 4, 5:
 				return c14Call(r)
 			case 6:
+				switch r.Intn(3) {
+				case 0:
+					return c14DefineTwiceThenCall(r)
+				case 1:
+					return c14Nested(r)
+				}
 				return c14CallInLoop(r)
 			default:
 				return c14Loop(r)
